@@ -198,6 +198,53 @@ func vDiodeBigBuf(poller bool) {
 func VH_C10_bigbuf_waiter() { vDiodeBigBuf(false) }
 func VH_C10_bigbuf_poller() { vDiodeBigBuf(true) }
 
+// A wrapped writer that fails (once, or always) is still handed every accepted message: an error
+// from the destination ends neither the consumer nor the accounting (C11).
+type vFailSink struct {
+	calls int
+	mode  int // 1: first call fails, 2: every call fails
+}
+
+func (s *vFailSink) Write(p []byte) (int, error) {
+	s.calls++
+	if s.mode == 2 || (s.mode == 1 && s.calls == 1) {
+		return 0, errSink
+	}
+	return len(p), nil
+}
+
+var errSink = vErrSink{}
+
+type vErrSink struct{}
+
+func (vErrSink) Error() string { return "sink" }
+
+func vDiodeFailingSink(poller bool) {
+	sink := &vFailSink{mode: 1 + zzverif.Choice(2)}
+	interval := time.Duration(0)
+	if poller {
+		interval = time.Millisecond
+	}
+	alerts := 0
+	w := NewWriter(sink, 4, interval, func(missed int) { alerts += missed })
+	var wg sync.WaitGroup
+	wg.Add(1)
+	go func() {
+		w.Write([]byte("a0"))
+		w.Write([]byte("a1"))
+		w.Write([]byte("a2"))
+		wg.Done()
+	}()
+	wg.Wait()
+	zzverif.Assert(w.Close() == nil, "C12: Close returns")
+	zzverif.Assert(sink.calls+alerts >= 3, "C11: after Close every message was handed to the wrapped writer or reported, also when the wrapped writer returns errors")
+	zzverif.Assert(sink.calls == 3 && alerts == 0, "C11: while fewer messages than the ring size are outstanding none is dropped (failing wrapped writer)")
+	zzverif.Reach("diode/failing-sink")
+}
+
+func VH_C10_failsink_waiter() { vDiodeFailingSink(false) }
+func VH_C10_failsink_poller() { vDiodeFailingSink(true) }
+
 func VH_C10_stuck_writer_waiter() { vDiodeStuck(false, 1+zzverif.Choice(2)) }
 func VH_C10_stuck_writer_poller() { vDiodeStuck(true, 1+zzverif.Choice(2)) }
 
